@@ -71,7 +71,7 @@ def sanitizer_signature(stderr):
         m = re.search(r'runtime error: (.*)$', ln)
         if m:
             msg = re.sub(r'-?\d+', 'N', m.group(1))
-            loc = re.search(r'(/repo/\S+?):\d+', ln)
+            loc = re.search(r'(\S*/(?:src/lib|include)/\S+?):\d+', ln)
             kind = 'ubsan:' + msg[:80] + ('@' + os.path.basename(loc.group(1)) if loc else '')
             break
         m = re.search(r'WARNING: ThreadSanitizer: (.*?) \(pid', ln)
@@ -94,7 +94,7 @@ def sanitizer_signature(stderr):
         if ln.startswith('freed by thread') or ln.startswith('previously allocated by') or 'Previous ' in ln:
             section = 1
         m = FRAME_RE.match(ln)
-        if m and '/repo/' in m.group(2):
+        if m and ('/src/lib/' in m.group(2) or '/include/ares' in m.group(2)):
             fn = m.group(1)
             if len(secframes[section]) < 4 and fn not in secframes[section]:
                 secframes[section].append(fn)
@@ -337,9 +337,10 @@ def match_known(known, prop, cls, detail):
 
 # ---------- the check ----------
 def write_evidence(root, prop, tier, seed, level, cov, wall, nviol, assumptions):
-    os.makedirs(os.path.join(root, 'evidence'), exist_ok=True)
+    evdir = os.environ.get('VERIF_EVIDENCE_DIR', os.path.join(root, 'evidence'))
+    os.makedirs(evdir, exist_ok=True)
     ev = dict(property_id=prop, tier=tier, seed=seed, level=level, coverage=cov, assumptions=assumptions, wall_s=round(wall, 2), violations=nviol)
-    with open(os.path.join(root, 'evidence', prop + '.json'), 'w') as f:
+    with open(os.path.join(evdir, prop + '.json'), 'w') as f:
         json.dump(ev, f, indent=1, sort_keys=True)
 
 
@@ -349,7 +350,8 @@ def do_check(root, prop, tier, seed):
     known = load_known(root)
     workdir = os.path.join(root, 'build', 'work')
     os.makedirs(workdir, exist_ok=True)
-    os.makedirs(os.path.join(root, 'replays'), exist_ok=True)
+    replays_dir = os.environ.get('VERIF_REPLAYS_DIR', os.path.join(root, 'replays'))
+    os.makedirs(replays_dir, exist_ok=True)
     wall_total = QUICK_WALL if tier == 'quick' else THOROUGH_WALL
     bins = {}
     for part in spec['parts']:
@@ -357,7 +359,7 @@ def do_check(root, prop, tier, seed):
             bins[part['flavor']] = build(root, part['flavor'])
     unvirt = []
     for fl in bins:
-        p = os.path.join(root, 'build', fl, 'sim', 'unvirtualised_imports.txt')
+        p = os.path.join(root, 'build', fl + os.environ.get('VERIF_BUILD_TAG', ''), 'sim', 'unvirtualised_imports.txt')
         if os.path.exists(p):
             unvirt += [x.strip() for x in open(p) if x.strip()]
 
@@ -476,7 +478,7 @@ def do_check(root, prop, tier, seed):
         small['violation'] = dict(cls=cls, property=prop, detail=detail0[:2000], first_seed=seed0, occurrences=len(occ), shrink_tests=ntests, steps_before=len(plan['steps']), steps_after=len(small['steps']))
         small['flavor'] = part['flavor']
         name = '%s-%s-%d.json' % (prop, hashlib.sha1(cls.encode()).hexdigest()[:10], seed0)
-        rp = os.path.join(root, 'replays', name)
+        rp = os.path.join(replays_dir, name)
         with open(rp, 'w') as f:
             json.dump(small, f, indent=1)
         c3, _, _, _ = run_replay(binp, rp)
@@ -562,6 +564,72 @@ def selftest_determinism(root, ids, n=300):
     return 1 if bad else 0
 
 
+def selftest_fixed(root):
+    """Replay every file under replays/fixed/: the repaired defects must not come back."""
+    import glob
+    bad = 0
+    for f in sorted(glob.glob(os.path.join(root, 'replays', 'fixed', '*.json'))):
+        with open(f) as fh:
+            d = json.load(fh)
+        binp = build(root, d.get('flavor', 'asan'))
+        classes, _, _, _ = run_replay(binp, f)
+        target = (d.get('violation') or {}).get('cls', '')
+        still = class_matches(target, classes) or bool(classes)
+        print('%s: %s' % (os.path.basename(f), 'STILL FAILS ' + str(sorted(classes)) if still else 'ok'))
+        bad += 1 if still else 0
+    return 1 if bad else 0
+
+
+def selftest_mutants(root, only=None, pattern='mutants'):
+    """Apply each sensitivity patch to /repo, run the owning property's quick check in a scratch build tree,
+    expect a VIOLATION, and undo the patch."""
+    import glob
+    repo = os.environ.get('VERIF_REPO', '/repo')
+    st = sh(['git', '-C', repo, 'status', '--porcelain', '--untracked-files=no']).stdout.strip()
+    if st:
+        sys.stderr.write('refusing: %s has uncommitted changes\n' % repo)
+        return 2
+    files = sorted(glob.glob(os.path.join(root, pattern, '*.patch')) + glob.glob(os.path.join(root, pattern, '*', 'patch.diff')))
+    rows = []
+    env = dict(os.environ)
+    env['VERIF_BUILD_TAG'] = '_mut'
+    env['VERIF_REPLAYS_DIR'] = os.path.join(root, 'build', 'work', 'mut_replays')
+    env['VERIF_EVIDENCE_DIR'] = os.path.join(root, 'build', 'work', 'mut_evidence')
+    env.setdefault('VERIF_QUICK_WALL', '60')
+    for f in files:
+        name = os.path.basename(f) if f.endswith('.patch') else os.path.basename(os.path.dirname(f))
+        prop = name.split('-')[0]
+        metaf = os.path.join(os.path.dirname(f), 'meta.json')
+        if os.path.exists(metaf) and not f.endswith('.patch'):
+            try:
+                prop = json.load(open(metaf)).get('property', prop)
+            except Exception:
+                pass
+        if only and prop not in only and name not in only:
+            continue
+        if prop not in PROPS:
+            rows.append((name, prop, 'no check'))
+            continue
+        a = sh(['git', '-C', repo, 'apply', f])
+        if a.returncode != 0:
+            rows.append((name, prop, 'patch does not apply'))
+            continue
+        try:
+            t0 = time.time()
+            p = subprocess.run([os.path.join(root, 'check'), prop, '--tier', 'quick'], env=env, stdout=subprocess.PIPE, stderr=subprocess.PIPE, text=True)
+            v = [ln for ln in p.stdout.splitlines() if ln.startswith('VIOLATION')]
+            cls = [ln.strip() for ln in p.stdout.splitlines() if ln.strip().startswith('class=')]
+            res = 'CAUGHT' if p.returncode == 1 and v else ('MISSED' if p.returncode == 0 else 'exit %d %s' % (p.returncode, p.stderr[-200:]))
+            rows.append((name, prop, '%s in %.0fs %s' % (res, time.time() - t0, (cls[0][:140] if cls else ''))))
+        finally:
+            sh(['git', '-C', repo, 'checkout', '--', '.'])
+        print('%-44s %-4s %s' % rows[-1])
+        sys.stdout.flush()
+    missed = [r for r in rows if not r[2].startswith('CAUGHT')]
+    print('%d patches, %d caught, %d not caught' % (len(rows), len(rows) - len(missed), len(missed)))
+    return 1 if missed else 0
+
+
 def main(root, argv):
     if not argv:
         print(__doc__)
@@ -577,6 +645,12 @@ def main(root, argv):
             if argv[1] == 'determinism':
                 ids = argv[2:] or [k for k in PROPS if k != 'SMOKE']
                 return selftest_determinism(root, ids)
+            if argv[1] == 'fixed':
+                return selftest_fixed(root)
+            if argv[1] == 'mutants':
+                return selftest_mutants(root, argv[2:] or None, 'mutants')
+            if argv[1] == 'seeded':
+                return selftest_mutants(root, argv[2:] or None, 'seeded')
             return 2
         prop = argv[0]
         if prop not in PROPS:
